@@ -259,3 +259,87 @@ def run(ck):
     ck.ob('C35.lock', 'C35.lock/no-reacquisition', not dead, dead[0][0].loc(dead[0][1]) if dead else '',
           'no function is called while holding a non-recursive mutex that the callee (transitively) locks again (%d calls under a lock examined)%s'
           % (n_locked_calls, '' if not dead else ' — %s holds %s and calls %s' % (short(dead[0][0].q), short(dead[0][3]), short(dead[0][2].q))))
+
+    # ---- a container is not restructured while a range-for walks it (iterator invalidation = undefined behaviour) --------------------------
+    from sa.paths import loops as _loops35
+    STRUCT_MOD = ('erase', 'clear', 'insert', 'emplace', 'try_emplace', 'emplace_back', 'push_back', 'pop_back', 'resize', 'extract', 'merge', 'insert_or_assign', 'reserve', 'rehash')
+    direct_mod = {}          # id(fn) -> set(member)
+    for f in P.fns:
+        mods = set()
+        for i in f.walk():
+            nd = f.nodes[i]
+            if nd['k'] == 'CXXMemberCallExpr' and (nd.get('callee') or '').split('::')[-1] in STRUCT_MOD and f.receiver(i) is not None:
+                rn = f.nodes[f.strip(f.receiver(i))]
+                if rn['k'] == 'MemberExpr' and rn.get('mk') == 'Field' and f.kids(f.strip(f.receiver(i))) and f.nodes[f.strip(f.kids(f.strip(f.receiver(i)))[0])]['k'] == 'CXXThisExpr':
+                    mods.add(rn.get('m'))
+            if nd['k'] == 'CXXOperatorCallExpr' and nd.get('op') == '[]' and 'map' in (nd.get('callee') or ''):
+                rn = f.nodes[f.strip(f.kids(i)[1])]
+                if rn['k'] == 'MemberExpr' and rn.get('mk') == 'Field' and f.kids(f.strip(f.kids(i)[1])) and f.nodes[f.strip(f.kids(f.strip(f.kids(i)[1]))[0])]['k'] == 'CXXThisExpr':
+                    mods.add(rn.get('m'))
+        direct_mod[id(f)] = mods
+    trans_mod = {k: set(v) for k, v in direct_mod.items()}
+    ch = True
+    rounds35 = 0
+    while ch and rounds35 < 40:
+        ch = False
+        rounds35 += 1
+        for f in P.fns:
+            cur = trans_mod[id(f)]
+            for site, tgt in ls.edges[id(f)]:
+                add = trans_mod.get(id(tgt), set()) - cur
+                if add:
+                    cur |= add
+                    ch = True
+    n_rf = 0
+    inval = []
+    for f in P.fns:
+        for l in _loops35(f):
+            nd = f.nodes[l]
+            if nd['k'] != 'CXXForRangeStmt':
+                continue
+            rng = f.nodes[f.strip(nd['range'])]
+            if not (rng['k'] == 'MemberExpr' and rng.get('mk') == 'Field' and f.kids(f.strip(nd['range'])) and f.nodes[f.strip(f.kids(f.strip(nd['range']))[0])]['k'] == 'CXXThisExpr'):
+                continue
+            n_rf += 1
+            m_ = rng.get('m')
+            body = nd['body']
+            for site, tgt in ls.edges[id(f)]:
+                if f.is_in(site, body) and m_ in trans_mod.get(id(tgt), set()) and tgt.cls == f.cls:
+                    inval.append((f, site, m_, tgt))
+            for i in f.walk(body):
+                n2 = f.nodes[i]
+                if n2['k'] == 'CXXMemberCallExpr' and (n2.get('callee') or '').split('::')[-1] in STRUCT_MOD and f.receiver(i) is not None and \
+                        f.nodes[f.strip(f.receiver(i))].get('m') == m_:
+                    inval.append((f, i, m_, None))
+    ck.floor('C35.iter', 'range-for loops over member containers', n_rf, 5)
+    ck.ob('C35.iter', 'C35.iter/no-restructuring-while-iterating', not inval, inval[0][0].loc(inval[0][1]) if inval else '',
+          'inside a range-for over a member container nothing erases from / inserts into that container, directly or through a called member function '
+          '(%d loops examined)%s' % (n_rf, '' if not inval else ' — %s is modified%s inside the loop of %s' %
+                                   (short(inval[0][2]), (' by ' + short(inval[0][3].q)) if inval[0][3] is not None else '', short(inval[0][0].q))))
+
+    # ---- whole-buffer I/O loops end on end-of-stream: the offset advances only by a positive count ------------------------------------------
+    from sa.flow import all_defs as _ad35b
+    n_ioh = 0
+    for f in P.fns:
+        nm = f.q.split('::')[-1]
+        if nm not in ('send_all', 'recv_all', 'recv_exact'):
+            continue
+        ios = [i for i in f.walk() if (f.nodes[i].get('callee') or '').lstrip(':') in ('send', 'recv')]
+        res = [f.nodes[v]['d'] for v in f.walk() if f.nodes[v]['k'] == 'VarDecl' and f.nodes[v].get('init') is not None and f.nodes[v]['init'] >= 0 and any(j in ios for j in f.walk(f.nodes[v]['init']))]
+        adv = [i for i in f.walk() if f.nodes[i]['k'] == 'CompoundAssignOperator' and f.nodes[i].get('op') == '+=' and
+               any(f.nodes[j]['k'] == 'DeclRefExpr' and f.nodes[j].get('d') in res for j in f.walk(f.kids(i)[1]))]
+        if not ios or not res or not adv:
+            continue
+        n_ioh += 1
+        ck.touch(f)
+
+        def positive(fact, f=f, res=res):
+            h = holds(f, fact)
+            if h is None:
+                return False
+            a, rel, b = h
+            return _dr(f, a) in res and const_value(f, b) == 0 and rel == '>'
+        fails, _ = gate_check(f, [('advance', a_) for a_ in adv], [('count > 0', positive)])
+        ck.ob('C35.io', 'C35.io/%s/%s' % (f.file.rsplit('/', 1)[-1].split('.')[0], nm), not fails, f.loc(adv[0]),
+              '%s continues its loop only after a transfer of more than 0 bytes: end-of-stream (0) and errors (< 0) leave the loop' % short(f.q), fails[0][3] if fails else None)
+    ck.floor('C35.io', 'whole-buffer I/O helpers', n_ioh, 5)
